@@ -334,9 +334,43 @@ class Interp:
         if st.value is not None:
             self.assign(st.target, self.eval(st.value, env), env)
 
+    def set_op(self, opname, a, b, inplace=False):
+        """a | b, a & b, a - b on sets of integers (concrete or symbolic); inplace: a is updated and returned (s |= t)"""
+        from .models import to_symset, promote_set
+        if isinstance(a, PySet) and isinstance(b, PySet):
+            r = {'BitOr': a.s | b.s, 'BitAnd': a.s & b.s, 'Sub': a.s - b.s}[opname]
+            if inplace:
+                a.s = set(r)
+                return a
+            return PySet(r)
+        ma, mb = to_symset(a), to_symset(b)
+        self.fresh_n += 1
+        i = z3.Int('i!set%d' % self.fresh_n)
+        body = {'BitOr': z3.Or(z3.Select(ma, i), z3.Select(mb, i)), 'BitAnd': z3.And(z3.Select(ma, i), z3.Select(mb, i)),
+                'Sub': z3.And(z3.Select(ma, i), z3.Not(z3.Select(mb, i)))}[opname]
+        m = z3.Lambda([i], body)
+        if inplace:
+            promote_set(a)
+            a.m = m
+            return a
+        return SymSet(m)
+
     def st_AugAssign(self, st, env):
         opname = type(st.op).__name__
         t = st.target
+        # in-place operators on mutable containers update the object itself (every alias sees the change)
+        if opname in ('BitOr', 'BitAnd', 'Sub', 'Add'):
+            cur = self.eval(t, env) if isinstance(t, (ast.Name, ast.Attribute, ast.Subscript)) else None
+            if isinstance(cur, (PySet, SymSet)) and opname != 'Add':
+                other = self.eval(st.value, env)
+                if isinstance(other, (PySet, SymSet)):
+                    self.set_op(opname, cur, other, inplace=True)
+                    return
+            if isinstance(cur, PyList) and opname == 'Add' and cur.cls is None:
+                other = self.eval(st.value, env)
+                if isinstance(other, (PyList, tuple)):
+                    cur.items.extend(self.iterate(other))
+                    return
         if isinstance(t, ast.Name):
             cur = env.lookup(t.id, self)
             self.assign(t, self.binop(opname, cur, self.eval(st.value, env)), env)
@@ -553,8 +587,13 @@ class Interp:
                 if self.find_source(sub) is not None or sub in self.ext_modules:
                     env.vars[bound] = self.load_module(sub)
                 else:
-                    if mod is None:
-                        raise Unsupported('no model for module %s' % modname)
+                    if mod is None or mod.path is None:
+                        # a name of a module this verifier has no model of: importing it is harmless, USING it is outside
+                        # the supported subset (reported where it is used, as undecided - never as a fault of the program)
+                        def unmodelled(I_, a_, k_, what='%s.%s' % (modname, a.name)):
+                            raise Unsupported('%s is not modelled' % what)
+                        env.vars[bound] = Builtin('%s.%s (unmodelled)' % (modname, a.name), unmodelled)
+                        continue
                     raise Unsupported('cannot import %s from %s' % (a.name, modname))
 
     MAX_SYMBOLIC_UNROLL = 6
@@ -985,6 +1024,8 @@ class Interp:
     _OPS = {'Add': '+', 'Sub': '-', 'Mult': '*', 'Div': '/', 'FloorDiv': '//', 'Mod': '%', 'Pow': '**'}
 
     def binop(self, opname, a, b):
+        if opname in ('BitOr', 'BitAnd', 'Sub') and isinstance(a, (PySet, SymSet)) and isinstance(b, (PySet, SymSet)):
+            return self.set_op(opname, a, b)
         op = self._OPS.get(opname)
         if op is None:
             raise Unsupported('binary operator %s' % opname)
@@ -1088,6 +1129,21 @@ class Interp:
         if op == 'NotEq':
             return self.negate(self.equals(a, b))
         sym = {'Lt': '<', 'LtE': '<=', 'Gt': '>', 'GtE': '>='}[op]
+        if isinstance(a, (PySet, SymSet)) and isinstance(b, (PySet, SymSet)):
+            # subset / superset tests between sets of integers
+            if isinstance(a, PySet) and isinstance(b, PySet):
+                return {'<': a.s < b.s, '<=': a.s <= b.s, '>': a.s > b.s, '>=': a.s >= b.s}[sym]
+            from .models import to_symset
+            ma, mb = to_symset(a), to_symset(b)
+            if sym in ('>', '>='):
+                ma, mb = mb, ma
+            self.fresh_n += 1
+            q = z3.Int('q!sub%d' % self.fresh_n)
+            sub = z3.ForAll([q], z3.Implies(z3.Select(ma, q), z3.Select(mb, q)))
+            if sym in ('<=', '>='):
+                return mk(sub, 'bool')
+            q2 = z3.Int('q!ne%d' % self.fresh_n)
+            return mk(z3.And(sub, z3.Exists([q2], z3.And(z3.Select(mb, q2), z3.Not(z3.Select(ma, q2))))), 'bool')
         if isinstance(a, (int, float, str, tuple)) and isinstance(b, type(a)) or \
                 (isinstance(a, (int, float)) and isinstance(b, (int, float))):
             return {'<': a < b, '<=': a <= b, '>': a > b, '>=': a >= b}[sym]
